@@ -34,6 +34,9 @@ def check_header(rep, R, enc, expect_prefix, where):
     hb = enc.header_bytes()
     want = list(expect_prefix) + [("n", 0), ("n", 8), ("n", 16)]
     # expect_prefix entries: ("const", v) or ("any",)
+    if getattr(enc, "header_unknown", None):
+        rep.inconc(R, "header: %s" % enc.header_unknown)
+        return
     if len(hb) < len(want):
         rep.violation(R, enc.body.name, "header-length", "header has %d byte(s), specified %d" % (len(hb), len(want)), where)
         return
@@ -184,8 +187,27 @@ def token_checks(rep, R2, R4, enc, forms, where, flag_shift=7):
         rep.violation(R4, enc.body.name, "group-size", "a group is flushed at %s tokens, specified 8" % gsize, where)
     # tail flush: after the loop, iff at least one token is buffered
     rets = [p for p in enc.paths if p.end == "ret"]
+
+    def src_root(t):
+        while True:
+            t = strip_refs(t)
+            if t[0] in ("index", "field", "cast", "subslice"):
+                t = t[1]
+            elif t[0] == "call" and t[2] and t[1].rsplit("::", 1)[-1] in ("index", "index_mut", "deref", "deref_mut", "as_slice", "as_mut_slice", "borrow"):
+                t = t[2][0]
+            else:
+                return norm(t)
+
+    def ext_events(p):
+        return [e for e in p.events if e["k"] == "call" and e["callee"] and e["callee"].rsplit("::", 1)[-1] in ("extend_from_slice", "append", "extend") and len(e["args"]) > 1]
+    # the group buffer is what the in-loop flush copies from; a header built with extend_from_slice is not a flush
+    in_loop = set()
+    for blks in enc.body.loops().values():
+        in_loop |= set(blks)
+    group_roots = set(src_root(e["args"][1]) for p in enc.paths if p.end == "loop" for e in ext_events(p) if e["bb"] in in_loop)
+
     def flushes(p):
-        return [e for e in p.events if e["k"] == "call" and e["callee"] and e["callee"].rsplit("::", 1)[-1] in ("extend_from_slice", "append", "extend")]
+        return [e for e in ext_events(p) if not group_roots or src_root(e["args"][1]) in group_roots]
     with_f = [p for p in rets if flushes(p)]
     without_f = [p for p in rets if not flushes(p)]
     tail = None
